@@ -108,47 +108,33 @@ Definition call := (prog * script)%type.
 Record ost := { o_prod : bool; o_c : cb; o_a : after; o_alive : bool; o_sts : list step; o_n : option nat; o_q : list frame }.
 Inductive cur := Idle | Open (o : ost).
 
-(* todo: calls left (head = call in progress) ; acc: raw events of the call in progress ; tr: finished calls ;
-   dead: serve() of this connection has raised *)
-Record cstate := { todo : list call; cur_ : cur; acc : list event; tr : list (list event); dead : bool }.
+(* todo: calls left (head = call in progress) ; acc: raw events of the call in progress ; tr: finished calls *)
+Record cstate := { todo : list call; cur_ : cur; acc : list event; tr : list (list event) }.
 
-Definition cinit (cs : list call) : cstate := {| todo := cs; cur_ := Idle; acc := []; tr := []; dead := false |}.
-
-(* serve() does not survive the call: the method returns a non-Stream, or a declared header is missing
-   (TypeError escapes serve_one and serve; see M_Wire.srv_init) *)
-Definition crashes (x : call) : bool :=
-  match x with
-  | (PStream sp, SIter h _ _ _) | (PStream sp, SExch h _ _ _) =>
-      match ires sp with
-      | InitBadReturn => true
-      | InitOk => h && match hdr sp with None => true | Some _ => false end
-      | InitRaise _ => false
-      end
-  | _ => false
-  end.
+Definition cinit (cs : list call) : cstate := {| todo := cs; cur_ := Idle; acc := []; tr := [] |}.
 
 (* a client that saw its connection die (EBlocked: no more bytes will come) or whose callback raised stops there *)
 Definition poisoned (t : list event) : bool := existsb (fun e => match e with EBlocked | ECbRaised => true | _ => false end) t.
 
 Definition end_call (x : cstate) (es : list event) : cstate :=
   let t := cut (acc x ++ es) in
-  {| todo := if poisoned t then [] else tl (todo x); cur_ := Idle; acc := []; tr := tr x ++ [t]; dead := dead x |}.
+  {| todo := if poisoned t then [] else tl (todo x); cur_ := Idle; acc := []; tr := tr x ++ [t] |}.
 
-Definition go_on (x : cstate) (es : list event) (o : ost) (d : bool) : cstate :=
-  {| todo := todo x; cur_ := Open o; acc := acc x ++ es; tr := tr x; dead := dead x || d |}.
+Definition go_on (x : cstate) (es : list event) (o : ost) : cstate :=
+  {| todo := todo x; cur_ := Open o; acc := acc x ++ es; tr := tr x |}.
 
 (* opening a stream = the first half of M_Wire.pipe_stream *)
-Definition open_call (x : cstate) (sp : stream_prog) (h prod : bool) (c : cb) (a : after) (n : option nat) (d : bool) : cstate :=
+Definition open_call (x : cstate) (sp : stream_prog) (h prod : bool) (c : cb) (a : after) (n : option nat) : cstate :=
   let '(q0, alive) := srv_init sp h in
   let mk q := {| o_prod := prod; o_c := c; o_a := a; o_alive := alive; o_sts := steps sp; o_n := n; o_q := q |} in
   if h then
     let '(es, o, r) := cli_read c q0 in
     match o with
-    | RdHdr v => go_on x (es ++ [EHeader v]) (mk (skip_eos r)) d
-    | RdFail e => end_call {| todo := todo x; cur_ := cur_ x; acc := acc x; tr := tr x; dead := dead x || d |} (es ++ [e])
-    | _ => end_call {| todo := todo x; cur_ := cur_ x; acc := acc x; tr := tr x; dead := dead x || d |} es
+    | RdHdr v => go_on x (es ++ [EHeader v]) (mk (skip_eos r))
+    | RdFail e => end_call x (es ++ [e])
+    | _ => end_call x es
     end
-  else go_on x [] (mk q0) d.
+  else go_on x [] (mk q0).
 
 (* one next() / exchange() = one iteration of pipe_prod / pipe_exch *)
 Definition read_one (o : ost) : list event * sess :=
@@ -162,8 +148,8 @@ Definition cstep (x : cstate) : cstate :=
       | [] => x
       | (p, sc) :: _ =>
           match p, sc with
-          | PStream sp, SIter h k a c => open_call x sp h true c a (match a with AStop => None | _ => Some k end) (crashes (p, sc))
-          | PStream sp, SExch h n a c => open_call x sp h false c a (Some n) (crashes (p, sc))
+          | PStream sp, SIter h k a c => open_call x sp h true c a (match a with AStop => None | _ => Some k end)
+          | PStream sp, SExch h n a c => open_call x sp h false c a (Some n)
           | _, _ => end_call x (run_pipe p sc)
           end
       end
@@ -173,13 +159,17 @@ Definition cstep (x : cstate) : cstate :=
            match z with
            | Live q' alive' =>
                go_on x es {| o_prod := o_prod o; o_c := o_c o; o_a := o_a o; o_alive := alive'; o_sts := tl (o_sts o);
-                             o_n := opred (o_n o); o_q := q' |} false
+                             o_n := opred (o_n o); o_q := q' |}
            | Over => end_call x es
            end
   end.
 
 Definition cfin (x : cstate) : bool := match cur_ x, todo x with Idle, [] => true | _, _ => false end.
-Definition clost (x : cstate) : bool := dead x.
+(* serve() raising in the middle of a connection: every exception of a call is answered on the wire and serve_one
+   returns (see M_Wire.srv_init / srv_tick), so no step of this machine loses its server side.  The generic system
+   and its theorems cover machines that do ([lost]); the _handle try/finally path is exercised on the real server by
+   a fault injected around serve(). *)
+Definition clost (x : cstate) : bool := false.
 
 (* what the client of the connection observed: one trace per finished call *)
 Definition ctrace (x : cstate) : list (list event) := tr x.
